@@ -39,6 +39,7 @@
 
 #include "alg_sig.h"
 #include "erasurecode_log.h"
+#include "erasurecode_verif.h"
 
 /* =~=*=~==~=*=~==~=*=~= Supported EC backends =~=*=~==~=*=~==~=*=~==~=*=~== */
 
@@ -90,6 +91,7 @@ static ec_backend_t backend_instance_get_by_desc_locked(int desc)
 {
     struct ec_backend *b = NULL;
     SLIST_FOREACH(b, &active_instances, link) {
+        VERIF_YIELD(1);
         if (b->idesc == desc)
             break;
     }
@@ -146,10 +148,12 @@ int liberasurecode_backend_instance_register(ec_backend_t instance)
     rc = rwlock_wrlock(&active_instances_rwlock);
     if (rc == 0) {
         SLIST_INSERT_HEAD(&active_instances, instance, link);
+        VERIF_YIELD(2);
         desc = liberasurecode_backend_alloc_desc();
         if (desc <= 0)
             goto register_out;
         instance->idesc = desc;
+        VERIF_YIELD(3);
     } else {
         goto exit;
     }
@@ -172,10 +176,12 @@ int liberasurecode_backend_instance_unregister(ec_backend_t instance)
     rc = rwlock_wrlock(&active_instances_rwlock);
     if (rc == 0) {
         SLIST_REMOVE(&active_instances, instance, ec_backend, link);
+        VERIF_YIELD(4);
     }  else {
         goto exit;
     }
     rwlock_unlock(&active_instances_rwlock);
+    VERIF_YIELD(5);
 
 exit:
     return rc;
@@ -326,6 +332,7 @@ int liberasurecode_instance_create(const ec_backend_id_t id,
     /* Call private init() for the backend */
     instance->desc.backend_desc = instance->common.ops->init(
             &instance->args, instance->desc.backend_sohandle);
+    VERIF_YIELD(6);
     if (NULL == instance->desc.backend_desc) {
         free (instance);
         return -EBACKENDINITERR;
@@ -347,20 +354,25 @@ int liberasurecode_instance_destroy(int desc)
     int rc = 0;                    /* return code */
 
     instance = liberasurecode_backend_instance_get_by_desc(desc);
+    VERIF_YIELD(7);
     if (NULL == instance)
         return -EBACKENDNOTAVAIL;
 
     /* Call private exit() for the backend */
     instance->common.ops->exit(instance->desc.backend_desc);
+    VERIF_YIELD(8);
 
     /* dlclose() backend library */
     liberasurecode_backend_close(instance);
+    VERIF_YIELD(9);
 
     /* Remove instance from registry */
     rc = liberasurecode_backend_instance_unregister(instance);
+    VERIF_YIELD(10);
     if (rc == 0) {
         free(instance);
     }
+    VERIF_YIELD(11);
 
     return rc;
 }
